@@ -178,6 +178,16 @@ def run(tier, seed, replay=None):
         res.violation("build failed", (log + logd)[-3000:], found_input=False)
         return res.finish()
     rng = random.Random(seed)
+    only = None
+    if replay:
+        import ast
+        m = re.search(r"variant (\{.*?\}) pre-existing=(True|False) fault=(\S+)", open(replay).read())
+        if not m:
+            res.violation("replay file not understood", open(replay).read()[:500], found_input=False)
+            return res.finish()
+        ft = m.group(3).split(":")
+        fault = ("none",) if ft[0] == "none" else ("fsize", int(ft[1]), ft[2]) if ft[0] == "fsize" else ("inject", ft[1], ft[2], int(ft[3]))
+        only = (ast.literal_eval(m.group(1)), m.group(2) == "True", fault)
     wd = os.path.join(res.workdir, "runs")
     shutil.rmtree(wd, ignore_errors=True)
     os.makedirs(wd)
@@ -185,8 +195,8 @@ def run(tier, seed, replay=None):
     checks = []      # (variant, pre, fault, dir, rc, observed classification)
     mlines = []
     refs = {}
-    for v in variants(tier):
-        for pre in (False, True):
+    for v in (variants(tier) if only is None else [only[0]]):
+        for pre in ((False, True) if only is None else (only[1],)):
             key = "%s_%s" % (v["id"], "pre" if pre else "fresh")
             base = os.path.join(wd, key + "_base")
             os.makedirs(base)
@@ -229,10 +239,10 @@ def run(tier, seed, replay=None):
         r["states"] = set(sts[0].split(" ")[1].split(",")) if sts else set()
         if not acc or not acc[0].startswith("accepts true"):
             res.violation("C09: the system-call trace of a real creation is not accepted by the proved recognizer (%s: %s %s)" % (key, acc[0] if acc else ml, "; ".join(r["notes"])),
-                          "variant %s pre-existing=%s\n# abstracted trace:\n%s\n" % (r["v"], r["pre"], "\n".join("# " + o for o in r["trace"])))
+                          "variant %s pre-existing=%s fault=none\n# abstracted trace:\n%s\n" % (r["v"], r["pre"], "\n".join("# " + o for o in r["trace"])))
     # fault plan
     plan = []
-    for key, r in refs.items():
+    for key, r in (refs.items() if only is None else []):
         mx = max(r["sizes"].values())
         if tier == "thorough":
             ns = list(range(0, mx + 2))
@@ -255,6 +265,10 @@ def run(tier, seed, replay=None):
                 plan.append((key, ("inject", "write", "signal=KILL", k)))
         for k in range(1, 5):
             plan.append((key, ("inject", "openat", "error=EACCES", 0 - k)))   # resolved below: counted from the first temp creation
+
+    if only is not None and only[2][0] != "none":
+        f = only[2]
+        plan = [(key, ("inject", "openat", f[2], -f[3]) if f[0] == "inject" and f[1] == "openat" else f) for key in refs]
 
     def do(item):
         i, (key, fault) = item
